@@ -218,7 +218,8 @@ func scenC05(r *Run) {
 	ref := decodeAll(hio.NewDecoder(stream).Simple(!refMode), mks)
 	// the same in-memory decode with a decoder that read from a reader before: nothing of that use may show
 	if ref.panicAt == "" {
-		d := hio.NewDecoderFromReader(&simReader{data: []byte(`s5"stale"i7;s3"abc"`), chunks: []int{4, 3}, errAt: -1})
+		// (a reader with far more to give than the decoder buffers ahead)
+		d := hio.NewDecoderFromReader(&simReader{data: []byte(`s5"stale"` + strings.Repeat(`i7;s3"abc"`, 400)), chunks: []int{4, 3, 64, 64, 64, 64, 64, 64, 64, 64, 64, 64, 64, 64, 64, 64}, errAt: -1})
 		var junk string
 		d.Decode(&junk)
 		own := append([]byte(nil), stream...)
